@@ -16,6 +16,7 @@ levels for c:multiLvlStrRef) and every cached c:pt idx=i equals the cell at offs
 """
 from __future__ import annotations
 
+import copy
 import io
 import json
 import os
@@ -209,6 +210,37 @@ def make_desc(rnd, kind, force, mixname):
     return c07.gen_data(rnd, kind, force.get("shape", "few"), mix=MIX8 if mixname == "all" else CLEAN, dates=DATES8, force=dict({k: v for k, v in force.items() if k != "shape"}, nf=rnd.choice(c07.NF_PLAIN), cat_nf=False))
 
 
+def extend_in_place(rnd, cd, desc):
+    """Grow an already-used chart-data object through its public API (one more category / data point, one more series) and
+    return the description of what it now holds.  Multi-level categories only gain a series (the tree stays uniform)."""
+    nd = copy.deepcopy(desc)
+    if desc["kind"] != "category":
+        dims = 2 if desc["kind"] == "xy" else 3
+        sers = list(cd)
+        if sers:
+            pt = [c07.number(rnd) for _ in range(dims)]
+            sers[0].add_data_point(*pt)
+            nd["series"][0]["points"].append(pt)
+        pts = [[c07.number(rnd) for _ in range(dims)] for _ in range(rnd.choice([1, 2, 3]))]
+        ser = cd.add_series("reuse-%d" % len(nd["series"]))
+        for pt in pts:
+            ser.add_data_point(*pt)
+        nd["series"].append({"name": "reuse-%d" % len(nd["series"]), "points": pts})
+        return nd
+    cats = nd["cats"]
+    m = len(cats["labels"]) if cats["kind"] != "multi" else len(c07.leaves(cats["tree"]))
+    if cats["kind"] in ("str", "num") and all(len(x["values"]) == m for x in nd["series"]):
+        lab = "West%d" % m if cats["kind"] == "str" else 10 ** 6 + m
+        cd.add_category(lab)
+        cats["labels"].append(lab)
+        m += 1
+        # (values of the existing series are fixed at add_series time: they now end one short of the categories)
+    vals = [c07.number(rnd) for _ in range(m)]
+    cd.add_series("reuse-%d" % len(nd["series"]), vals)
+    nd["series"].append({"name": "reuse-%d" % len(nd["series"]), "values": vals})
+    return nd
+
+
 def run_case(case, acc):
     """{family, ct, entry, force, mix, steps: [{force, mode}], seed}"""
     import pptx
@@ -216,8 +248,8 @@ def run_case(case, acc):
     rnd = c07.rng("C08", *case["seed"])
     kind = case["family"]
     desc = make_desc(rnd, kind, case["force"], case["mix"])
-    steps = [(make_desc(rnd, kind, s["force"], case["mix"]), s["mode"]) for s in case["steps"]]
-    sig = {"family": kind, "ct": case["ct"], "data": c07.signature(desc), "steps": [(m, c07.signature(d)) for d, m in steps]}
+    steps = [(None if s["mode"].startswith("reuse") else make_desc(rnd, kind, s["force"], case["mix"]), s["mode"]) for s in case["steps"]]
+    sig = {"family": kind, "ct": case["ct"], "data": c07.signature(desc), "steps": [(m, c07.signature(d) if d else None) for d, m in steps]}
     j = c07.Judge(acc, case, "%s %s via %s, %s, steps %s" % (kind, case["ct"], case["entry"], json.dumps(sig["data"]), [m for _, m in steps]))
     cd = c07.build_data(desc)
     res, ok = guarded(j, lambda: c07.new_chart(case["entry"], case["ct"], cd), case["entry"])
@@ -232,6 +264,31 @@ def run_case(case, acc):
         data = save(prs)
         cxs.append(check_package(j, data, partname, desc))
         for nd, mode in steps:
+            if mode.startswith("reuse"):
+                # the SAME chart-data object, grown since it was last used, is used again: for this chart or for a new one
+                nd = desc = extend_in_place(rnd, cd, desc)
+                acc.hit("replace-mode:" + mode)
+                acc.count("chart_data_objects_reused_after_growing")
+                if mode == "reuse-new-chart":
+                    from pptx.enum.chart import XL_CHART_TYPE
+                    from pptx.util import Emu
+
+                    gf, ok = guarded(j, lambda: prs.slides[0].shapes.add_chart(
+                        XL_CHART_TYPE[case["ct"]], Emu(0), Emu(0), Emu(3000000), Emu(2000000), cd), "add_chart")
+                    if not ok:
+                        break
+                    chart, partname = gf.chart, str(gf.chart.part.partname)
+                    acc.hit("add_chart")
+                else:
+                    _, ok = guarded(j, lambda: chart.replace_data(cd), "replace_data")
+                    acc.count("replaces")
+                    if not ok:
+                        break
+                    acc.hit("replace_data")
+                data = save(prs)
+                cxs.append(check_package(j, data, partname, nd))
+                continue
+            desc = nd
             if mode != "same":
                 data = c07.variant_deck(data, date1904=mode == "date1904", drop_external=mode == "no-external")
                 prs = pptx.Presentation(io.BytesIO(data))
@@ -343,7 +400,7 @@ def plan(tier, seed):
             steps = []
             for _ in range(rnd.choice([0, 1, 1, 2])):
                 f = rnd_force(rnd, family)
-                mode = rnd.choice(["same", "same", "no-external", "date1904"])
+                mode = rnd.choice(["same", "same", "no-external", "date1904", "reuse", "reuse-new-chart"])
                 if mode == "date1904" and family == "category" and rnd.random() < 0.6:
                     f.update(cats="date")
                 steps.append({"force": dict(f, nser=1) if ct == "PIE" else f, "mode": mode})
